@@ -77,6 +77,25 @@ def hooks_commits():
     except Exception:
         return []
 
+# engines and dimensions added after the table above was written (appended to the level text)
+ADDENDA = {
+ "C04": " Requests may carry No-Response; reassembled notifications must keep the Observe option and the ETag of the version they deliver (also against a server that tags its notifications only).",
+ "C05": " Requests may carry No-Response (the reply withheld or not).",
+ "C06": " The client may have block-wise transfer on and the response may come in several blocks; no copy of the original after the complete response was delivered.",
+ "C08": " Engine blockwise: observations with notification bodies of several blocks between two library endpoints (overlapping transfers, changing representations, fault tapes): every delivery carries a sequence number and the numbers strictly increase.",
+ "C09": " One-way writes also with bodies of several blocks.",
+ "C10": " Handlers of the loopback server may call back to the requesting peer (confirmable or non-confirmable) before they answer.",
+ "C11": " Nested requests may be non-confirmable.",
+ "C12": " Requests may carry No-Response.",
+ "C13": " Requests may carry No-Response.",
+ "C14": " Engine expiring: elements whose deadline falls into store-if-absent calls that wait for the table's lock (real goroutines, timing-independent oracle).",
+ "C17": " A third of the scenarios put a history (requests, re-registrations, removals, added middlewares) between set-up and the examined request.",
+ "C20": " Engine blockwise: No-Response together with block-wise request and response bodies between two library endpoints; the end-to-end requests also carry options of other features (Observe, Accept, Uri-Query, Block2, Size1).",
+}
+for k, add in ADDENDA.items():
+    t = CLAIMED[k]
+    CLAIMED[k] = (t[0], t[1] + add, t[2], t[3])
+
 checks, na = [], []
 for p in props:
     pid = p["id"]
